@@ -184,7 +184,7 @@ CMR_ERROR recognizeNetwork(
     if (outputTreeFileName)
     {
       // TODO: implement
-      assert(!"NOT IMPLEMENTED");
+      fprintf(stderr, "Error: writing the spanning tree (option -T) is not implemented.\n");
       exit(EXIT_FAILURE);
     }
 
@@ -281,7 +281,7 @@ CMR_ERROR computeNetwork(
   if (inputTreeFileName)
   {
     // TODO: implement
-    assert(!"NOT IMPLEMENTED");
+    fprintf(stderr, "Error: reading a tree (option -T) is not implemented.\n");
     return EXIT_FAILURE;
   }
 
